@@ -126,7 +126,7 @@ func registerIntrinsics(e *Exec) {
 	in["time.Now"] = func(e *Exec, st *State, fn *ssa.Function, args []Value) []Outcome {
 		// abstract instant: wall without monotonic bit, ext = seconds since year 1 (non-negative, bounded), loc nil (UTC)
 		ext := e.tc.FreshVar("time.Now.sec", 64)
-		lo := e.tc.Int(62135596800)        // 1970
+		lo := e.tc.Int(62135596800)         // 1970
 		hi := e.tc.Int(62135596800 + 1<<33) // ~2242
 		st.assume(e.tc.And(e.tc.Sle(lo, ext), e.tc.Sle(ext, hi)))
 		nsec := e.tc.FreshVar("time.Now.nsec", 64)
